@@ -55,8 +55,8 @@ def function_stage(ck, n, n_malformed):
                 continue
             ck.count("wwriter_" + w[0] + (":" + w[1].split(":")[0] if w[0] != "ok" else ""))
             if w[0] == "ok":
-                reqs += ["wwrite " + w[1] + " " + w[2], "wspec " + w[1] + " " + w[2], "wloop " + w[1]]
-                owners += [(c, "write"), (c, "spec"), (c, "loop")]
+                reqs += ["wwrite " + w[1] + " " + w[2], "wspec " + w[1] + " " + w[2], "wloop " + w[1], "wdomain " + w[1]]
+                owners += [(c, "write"), (c, "spec"), (c, "loop"), (c, "domain")]
                 if not c["perturbed"]:
                     from ethosu.vela import tflite_writer as tw
 
@@ -70,6 +70,8 @@ def function_stage(ck, n, n_malformed):
     for (c, what), a, rq in zip(owners, ans, reqs):
         by_case.setdefault(id(c), {})[what] = (a, rq)
         ck.count(f"w_{what}_" + a.split(" ")[0])
+        if what == "domain" and a.startswith("out "):
+            ck.count("w_domain_out_" + a.split(" ")[1])       # which clause of Spec.conformsDomainB the description leaves
     disagreements = 0
     budget = {}            # at most 4 reports per (stream, failing input found?) so that no stream crowds out the others
 
